@@ -546,9 +546,130 @@ pub fn run_c02(ctx: &Ctx, rec: &mut Rec) {
             }
         }
     });
+    placements(ctx, rec, &eps, &strings);
     #[cfg(feature = "ark")]
     stream_positions(ctx, rec);
     rec.check_coverage();
+}
+
+/// An `Encoding` at a chosen distance from a 16-byte boundary, with bytes of a valid encoding around it.
+#[repr(C, align(16))]
+struct Placed<const K: usize> {
+    pad: [u8; K],
+    e: Encoding,
+    tail: [u8; 16],
+}
+fn with_placed<R>(off: usize, bytes: [u8; 32], fill: u8, f: &dyn Fn(&Encoding) -> R) -> R {
+    macro_rules! go {
+        ($($k:literal)*) => { match off { $($k => { let p = Placed::<$k> { pad: [fill; $k], e: Encoding(bytes), tail: [fill; 16] }; let r = f(std::hint::black_box(&p.e)); std::hint::black_box(&p); r })* _ => unreachable!() } };
+    }
+    go!(0 1 2 3 4 5 6 7 8 9 10 11 12 13 14 15)
+}
+
+/// The same bytes at every distance 0..16 from a 16-byte boundary, as a sub-slice of a larger buffer
+/// whose other bytes are (a) zero, (b) copies of a valid encoding, so that a decoder that reads a window
+/// other than the slice it was given accepts something: the answer of every slice-taking and
+/// reference-taking entry point must not depend on where its argument lives.
+fn placements(ctx: &Ctx, rec: &mut Rec, eps: &[EntryPoint], strings: &[(Vec<u8>, &'static str)]) {
+    const P: &str = "C02";
+    let c = &ctx.c;
+    rec.declare_class("placement");
+    let valid = to_le(&b(8), 32);
+    // all wrong lengths 0..=80 plus a sample of every other class
+    let mut chosen: Vec<&(Vec<u8>, &'static str)> = Vec::new();
+    let mut per_class: std::collections::HashMap<&str, usize> = Default::default();
+    for it in strings {
+        let n = per_class.entry(it.1).or_default();
+        let cap = if it.1 == "length" { usize::MAX } else { ctx.scale(12, 200) };
+        if *n < cap && it.0.len() <= 4096 {
+            *n += 1;
+            chosen.push(it);
+        }
+    }
+    rec.count("placement strings", chosen.len() as u64);
+    par(rec, |w, n, rec| {
+        let mut backing: Vec<u128> = vec![0; 4096 / 16 + 8];
+        for (i, (s, class)) in chosen.iter().enumerate() {
+            if i % n != w {
+                continue;
+            }
+            rec.class("placement");
+            let spec = c.decode_spec(s);
+            for ep in eps {
+                if s.len() != 32 && !ep.any_len {
+                    continue;
+                }
+                // reference answer: the bytes in a Vec of their own
+                let s2 = s.clone();
+                let Ok((want, _)) = guarded(|| (ep.f)(&s2)) else { continue };
+                let want = match want {
+                    Verdict::Ok(bts, _) => Verdict::Ok(bts, El2(vec![], vec![], vec![], vec![])),
+                    v => v,
+                };
+                for fill in 0..2 {
+                    for off in 0..16usize {
+                        // SAFETY: u128 -> u8 view of an initialised buffer
+                        let buf: &mut [u8] = unsafe { std::slice::from_raw_parts_mut(backing.as_mut_ptr() as *mut u8, backing.len() * 16) };
+                        for (k, x) in buf.iter_mut().enumerate() {
+                            *x = if fill == 0 { 0 } else { valid[(k + 32 - off % 32) % 32] };
+                        }
+                        buf[off..off + s.len()].copy_from_slice(s);
+                        let sl: &[u8] = &buf[off..off + s.len()];
+                        rec.form(ep.name);
+                        rec.eval(&(s.len(), off, fill, ep.name), false);
+                        let got = guarded(|| (ep.f)(sl));
+                        let got = match got {
+                            Err(p) => {
+                                rec.violation(format!("{P}:{}:panic:placement", ep.name), format!("{} panicked on a slice of length {} at distance {off} from a 16-byte boundary: {p}", ep.name, s.len()), json!({"bytes": hx(s), "class": class, "offset": off}));
+                                continue;
+                            }
+                            Ok((Verdict::Ok(bts, _), _)) => Verdict::Ok(bts, El2(vec![], vec![], vec![], vec![])),
+                            Ok((v, _)) => v,
+                        };
+                        if got != want {
+                            rec.violation(
+                                format!("{P}:{}:answer-depends-on-placement", ep.name),
+                                format!("{} answered {} for {} (length {}, class {class}, spec {:?}) in a buffer of its own and {} for the same bytes as a sub-slice starting {off} bytes after a 16-byte boundary (surrounding bytes: {})", ep.name, short(&want), hx(&s[..s.len().min(40)]), s.len(), spec.as_ref().map(|_| "valid").map_err(spec_err_name), short(&got), if fill == 0 { "zero" } else { "a valid encoding repeated" }),
+                                json!({"bytes": hx(s), "class": class, "offset": off, "fill": fill}),
+                            );
+                        }
+                    }
+                }
+            }
+            // reference-taking entry points on an Encoding stored at every distance from a boundary
+            if s.len() == 32 {
+                let arr = arr32(s);
+                let plain = guarded(|| v_of(Encoding(arr).vartime_decompress()).0);
+                let Ok(plain) = plain else { continue };
+                let plain = match plain {
+                    Verdict::Ok(bts, _) => Verdict::Ok(bts, El2(vec![], vec![], vec![], vec![])),
+                    v => v,
+                };
+                for off in 0..16usize {
+                    for (name, f) in [
+                        ("Encoding::vartime_decompress", (&|e: &Encoding| v_of(e.vartime_decompress()).0) as &dyn Fn(&Encoding) -> Verdict),
+                        ("TryFrom<&Encoding> for Element", &|e: &Encoding| v_of(El::try_from(e)).0),
+                        ("TryFrom<&[u8]> for Element", &|e: &Encoding| v_of(El::try_from(&e.0[..])).0),
+                    ] {
+                        rec.form(name);
+                        rec.eval(&(32usize, off, 9u8, name), false);
+                        let got = guarded(|| with_placed(off, arr, 0x08, f));
+                        let got = match got {
+                            Err(p) => {
+                                rec.violation(format!("{P}:{name}:panic:placement"), format!("{name} panicked on an Encoding stored {off} bytes after a 16-byte boundary: {p}"), json!({"bytes": hx(s), "offset": off}));
+                                continue;
+                            }
+                            Ok(Verdict::Ok(bts, _)) => Verdict::Ok(bts, El2(vec![], vec![], vec![], vec![])),
+                            Ok(v) => v,
+                        };
+                        if got != plain {
+                            rec.violation(format!("{P}:{name}:answer-depends-on-placement"), format!("{name} answered {} for {} held in a local and {} for the same Encoding stored {off} bytes after a 16-byte boundary", short(&plain), hx(s), short(&got)), json!({"bytes": hx(s), "offset": off}));
+                        }
+                    }
+                }
+            }
+        }
+    });
 }
 
 fn short(v: &Verdict) -> String {
